@@ -117,7 +117,7 @@ fn check_all(eg: &EGraph<LSym, ASym>, handles: &[AppliedId], out: &mut CaseOut) 
     Ok(())
 }
 
-pub fn eval(h: &History, sparse: bool) -> CaseOut {
+pub fn eval(h: &History, sparse: bool, rw_seed: Option<u64>) -> CaseOut {
     let lang = &LSYM;
     let mut out = CaseOut::default();
     let cj = h.json(lang);
@@ -203,6 +203,41 @@ pub fn eval(h: &History, sparse: bool) -> CaseOut {
             return out;
         }
     }
+    // rewriting on top (rules that create redundancy, symmetries and binders by themselves), the analysis still attached
+    if let Some(rs) = rw_seed {
+        let mut rr = Rng::new(rs);
+        let rules = crate::props::c08::sym_rules_n::<ASym>(&mut rr);
+        let names: Vec<String> = rules.iter().map(|x| x.0.clone()).collect();
+        let rws: Vec<Rewrite<LSym, ASym>> = rules.into_iter().map(|x| x.1).collect();
+        for it in 0..2 {
+            if eg.total_number_of_nodes() > 120 || rws.is_empty() {
+                break;
+            }
+            if let Err(p) = guard(|| apply_rewrites(&mut eg, &rws)) {
+                out.fail(Fail::panic("panic", &p, &format!("rewrite iteration {it} with {names:?} after the history"), cj.clone()));
+                return out;
+            }
+            out.inc("rewrite_iterations");
+            let hs: Vec<AppliedId> = ids.values().cloned().collect();
+            match guard(|| check_all(&eg, &hs, &mut out)) {
+                Err(p) => {
+                    out.fail(Fail::panic("panic", &p, &format!("analysis observation after rewrite iteration {it} with {names:?}"), cj.clone()));
+                    return out;
+                }
+                Ok(Err((sig, d))) => {
+                    out.fail(Fail::new("analysis", sig, format!("after rewrite iteration {it} with {names:?}: {d}"), cj.clone()));
+                    return out;
+                }
+                Ok(Ok(())) => {}
+            }
+            let (n, bad) = structural_invariants(&eg);
+            out.add("invariant_checks", n);
+            if let Some((sig, d)) = bad {
+                out.fail(Fail::new("inconsistent", sig, format!("after rewrite iteration {it} with {names:?}: {d}"), cj.clone()));
+                return out;
+            }
+        }
+    }
     let c = CALLS.with(|c| c.get());
     out.add("make_calls", c.0);
     out.add("merge_calls", c.1);
@@ -224,10 +259,11 @@ pub fn run_case(rng: &mut Rng, sparse: bool) -> CaseOut {
     let ops: Vec<&'static str> = if rng.chance(1, 2) { SYM_OPS_ALL.to_vec() } else { SYM_OPS_BASIC.to_vec() };
     let cfg = GenCfg { lang, ops, ns, max_depth: rng.range(0, 2), max_names: 4, shadow: rng.chance(1, 3) };
     let h = gen_history(rng, &cfg, 7, 7);
-    let mut out = eval(&h, sparse);
+    let rw_seed = if rng.chance(1, 2) { Some(rng.next()) } else { None };
+    let mut out = eval(&h, sparse, rw_seed);
     if let Some(f) = out.fails.first().cloned() {
-        let small = shrink_history(&h, &|h2: &History| eval(h2, sparse).fails.iter().any(|g| g.kind == f.kind && g.sig == f.sig));
-        if let Some(g) = eval(&small, sparse).fails.into_iter().find(|g| g.kind == f.kind && g.sig == f.sig) {
+        let small = shrink_history(&h, &|h2: &History| eval(h2, sparse, rw_seed).fails.iter().any(|g| g.kind == f.kind && g.sig == f.sig));
+        if let Some(g) = eval(&small, sparse, rw_seed).fails.into_iter().find(|g| g.kind == f.kind && g.sig == f.sig) {
             out.fails = vec![g];
         }
     }
